@@ -100,6 +100,7 @@ class Gen:
     def __init__(self, rnd, aml, leaves, vars_):
         self.rnd, self.aml, self.leaves, self.vars = rnd, aml, leaves, vars_
         self.nid = 0
+        self.pool = []
 
     def const(self):
         r = self.rnd
@@ -121,7 +122,15 @@ class Gen:
         return self.const()
 
     def expr(self, d):
+        j, e = self._expr(d)
+        if not isinstance(e, (int, float)) and j["op"] not in ("var", "param", "const"):
+            self.pool.append((j, e))
+        return j, e
+
+    def _expr(self, d):
         r = self.rnd
+        if self.pool and r.random() < 0.12:
+            return r.choice(self.pool)          # the SAME sub-expression object used again (also within one expression)
         if d == 0 or r.random() < 0.15:
             return self.leaf()
         k = r.random()
